@@ -320,7 +320,75 @@ def build_T16c(tree):
     return '\n\n'.join([t1, t2, t3]), hashlib.sha256(repr((pl, vo, rows)).encode()).hexdigest()
 
 
+# ---------------------------------------------------------------- T16d: per-item tests of the _contains_* helpers
+def _item_loop(tree, qual, lean_name, value_attr):
+    """`for item in matched_items:` of a `_contains_*_items` helper -> decision for ONE item (`continue` = no match)"""
+    fn = find_func(tree, qual)
+    body = strip_doc(fn.body)
+    loops = [s for s in body if isinstance(s, ast.For)]
+    if len(loops) != 1 or ast.unparse(loops[0].iter) != 'matched_items' or ast.unparse(loops[0].target) != 'item':
+        raise Unsupported(f'{qual}: `for item in matched_items` not found')
+    if not (isinstance(body[-1], ast.Return) and ast.unparse(body[-1].value) == 'False'):
+        raise Unsupported(f'{qual}: does not end with `return False`')
+    call = body[0]
+    if not (isinstance(call, ast.Assign) and ast.unparse(call.targets[0]) == 'matched_items' and
+            ast.unparse(call.value.func) == 'find_content_items' and not any(k.arg == 'recursive' for k in call.value.keywords)):
+        raise Unsupported(f'{qual}: matched_items is no longer a non-recursive find_content_items call')
+
+    class R(ast.NodeTransformer):
+        def visit_Compare(self, node):
+            t = ast.unparse(node)
+            m = {'value is not None': ('value_given', False), 'referenced_sop_class_uid is not None': ('cls_given', False),
+                 'referenced_sop_instance_uid is not None': ('inst_given', False),
+                 f'item.{value_attr} == value': ('value_equal', False),
+                 'item.referenced_sop_class_uid != referenced_sop_class_uid': ('cls_equal', True),
+                 'found_uid != referenced_sop_instance_uid': ('inst_equal', True),
+                 'item.referenced_sop_instance_uid != referenced_sop_instance_uid': ('inst_equal', True)}.get(t)
+            if m is None:
+                raise Unsupported(f'{qual}: test `{t}` not understood')
+            nm = ast.Name(id=m[0], ctx=ast.Load())
+            return ast.UnaryOp(op=ast.Not(), operand=nm) if m[1] else nm
+
+        def visit_Continue(self, node):
+            return ast.parse('return False').body[0]
+
+        def visit_Assign(self, node):
+            if ast.unparse(node) == 'found_uid = item.referenced_sop_instance_uid':
+                return None
+            return node
+    stmts = [x for x in (R().visit(ast.parse(ast.unparse(st)).body[0]) for st in loops[0].body) if x is not None]
+
+    class Fill(ast.NodeTransformer):
+        def visit_If(self, node):
+            self.generic_visit(node)
+            node.body = [b for b in node.body if b is not None] or [ast.Pass()]
+            return node
+    stmts = [Fill().visit(x) for x in stmts]
+    # an item that falls through the tests does not end the loop: no match for this item
+    stmts = stmts + [ast.parse('return False').body[0]]
+    for x in stmts:
+        ast.fix_missing_locations(x)
+    return stmts, ast.unparse(fn)
+
+
+def build_T16d(tree):
+    parts, shas = [], []
+    for qual, nm, attr in (('_contains_code_items', 'codeItemMatches', 'value'), ('_contains_text_items', 'textItemMatches', 'TextValue'),
+                           ('_contains_uidref_items', 'uidrefItemMatches', 'UID')):
+        stmts, sha = _item_loop(tree, qual, nm, attr)
+        parts.append(translate_block(stmts, nm, [('value_given', 'bool'), ('value_equal', 'bool')], {},
+                                     doc=f'`{qual}`: does ONE matched item end the search with True'))
+        shas.append(sha)
+    stmts, sha = _item_loop(tree, '_contains_image_items', 'imageItemMatches', 'value')
+    parts.append(translate_block(stmts, 'imageItemMatches', [('cls_given', 'bool'), ('cls_equal', 'bool'), ('inst_given', 'bool'),
+                                                              ('inst_equal', 'bool')], {},
+                                 doc='`_contains_image_items`: does ONE matched IMAGE item end the search with True'))
+    shas.append(sha)
+    return '\n\n'.join(parts), hashlib.sha256(''.join(shas).encode()).hexdigest()
+
+
 TARGETS = {
+    'T16d': {'file': 'sr/templates.py', 'build': build_T16d},
     'T16a': {'file': 'sr/templates.py', 'build': build_T16a},
     'T16b': {'file': 'sr/templates.py', 'build': build_T16b},
     'T16c': {'file': 'sr/templates.py', 'build': build_T16c},
